@@ -111,6 +111,24 @@ func c09CfgNoFilter(p c09Params) *WorldCfg {
 func c09Cfg(p c09Params) *WorldCfg {
 	cfg := &WorldCfg{Prop: "C09", Driver: "c09", MemKB: p.MemKB, Defs: c09Defs(), Stmts: c09Stmts()}
 	switch p.Seed {
+	case "t1-hash":
+		// hash index on the key column (catalog API); keys whose home is the LAST slot of a block page of the
+		// linear-probe table: removing them makes the probe cross into the next block page. The optimizer
+		// cannot use a hash index: DML goes through scan-path predicates, lookups through the plan API.
+		td := cfg.Defs["t1"]
+		td.Idx = []string{"hash", ""}
+		cfg.Defs["t1"] = td
+		cfg.SeedCreate = []string{"t1"}
+		bk := c17HashBoundaryKeys()
+		as := []string{"a", "s"}
+		cfg.SeedStmts = []*Stmt{{Kind: "insert", Table: "t1", Cols: as, Rows: [][]any{{bk[0], "x"}, {bk[1], "y"}, {int32(7), "z"}}}}
+		cfg.Stmts = []*Stmt{
+			{Kind: "delete", Table: "t1", Where: ForceScan(Leaf{"a", "=", bk[0]})},
+			{Kind: "delete", Table: "t1", Where: ForceScan(Leaf{"a", "=", bk[1]})},
+			{Kind: "delete", Table: "t1", Where: ForceScan(Leaf{"a", "=", int32(7)})},
+			{Kind: "insert", Table: "t1", Cols: as, Rows: [][]any{{bk[2], "w"}}},
+			{Kind: "insert", Table: "t1", Cols: as, Rows: [][]any{{bk[0], "again"}}},
+		}
 	case "t1-btree":
 		// the B-link tree keeps its own pages and writes its state out at shutdown (catalog API table:
 		// B-tree index on the key column, none on the other)
@@ -128,6 +146,14 @@ func c09Cfg(p c09Params) *WorldCfg {
 		}
 	}
 	domain := c09Domain
+	if p.Seed == "t1-hash" {
+		domain = func(td *TableDef, c ColDef) []any {
+			if c.Name == "a" {
+				return append(append([]any{}, c17HashBoundaryKeys()...), int32(7))
+			}
+			return nil
+		}
+	}
 	if p.Seed == "dealloc" {
 		cfg.SeedCreate = []string{"t1"}
 		cfg.SeedStmts = []*Stmt{{Kind: "insert", Table: "t1", Cols: []string{"a", "s"}, Rows: c09WideRows(10, 14)}}
@@ -142,7 +168,7 @@ func c09Cfg(p c09Params) *WorldCfg {
 			}
 		}
 		for _, t := range []string{"t1", "t2"} {
-			if p.Seed == "dealloc" || p.Seed == "t1-btree" {
+			if p.Seed == "dealloc" || p.Seed == "t1-btree" || p.Seed == "t1-hash" {
 				break
 			}
 			if t == "t2" && w.cfg.MemKB < 64 {
@@ -225,7 +251,7 @@ func init() {
 			}
 			// "dealloc": with 10 or 12 frames the pages of emptied index nodes are evicted and their ids are
 			// reused for heap pages; with 32 frames they stay flagged in the pool until the restart
-			combos = append(combos, ms{40, "dealloc"}, ms{48, "dealloc"}, ms{128, "dealloc"}, ms{128, "t1-btree"})
+			combos = append(combos, ms{40, "dealloc"}, ms{48, "dealloc"}, ms{128, "dealloc"}, ms{128, "t1-btree"}, ms{128, "t1-hash"})
 			for _, cb := range combos {
 				p := c09Params{MemKB: cb.mem, Seed: cb.seed}
 				core.BFS(c, core.SeqConfig{Name: fmt.Sprintf("c09/%s/mem%d", cb.seed, cb.mem), Params: p,
